@@ -354,3 +354,8 @@ impl RtpsWriterProxy {
     }
   }
 } // impl
+
+// Verification accessors (read-only views of private state); only with `--cfg rustdds_verif`.
+#[cfg(rustdds_verif)]
+#[path = "/verif/facade/wproxy_hooks.rs"]
+pub(crate) mod verif_hooks;
